@@ -246,6 +246,9 @@ def hermes_state(ctx, rule):
     if ctx.check(len(pushes) == 1 and len(empt) == 1, rule, fn, "push+empty-test", "one push per segment, empty segments tested once"):
         nonempty = [tb for v, tb in b.blocks[empt[0]]["term"]["arms"] if v == 0]
         ctx.check(bool(nonempty) and loop_passes(b, nonempty[0], inner_h, pushes), rule, fn, "segment:no-skip", "every non-empty segment that parses contributes an offset (no segment is dropped)")
+        pcalls = [bi for bi, t in q.calls_to(b, "vlq::parse_vlq_segment_into")]
+        ctx.check(len(pcalls) == 1 and any(c.bb == empt[0] and c.truth() is False for c in q.path_conditions(b, pcalls[0])), rule, fn, "segment:empty-skipped",
+                  "an empty segment is skipped, not parsed (parsing it would fail and disable the whole function map)")
     its = [sh for l in sorted(b.var_names) for sh, _, _ in q.def_shapes(b, l, roles) if sh == "Iterator::copied(slice::iter(^var:Vec<i64>))"]
     ctx.check(len(its) == 1, rule, fn, "nums-iter", "the values are read in order from the parsed segment")
     parse = [q.shape(b.expr_of_call(t)) for bi, t in b.calls() if q.nice(t.get("callee")) == "Result::ok"]
